@@ -324,6 +324,36 @@ def pit_case(torch, seed, style, full=False):
             if not close(c2, Fraction(ref)):
                 o['fails'].append(('open-masks-cost-differs-from-original:' + which, {'open': c2, 'original': ref, 'order': o['order'], 'excluded': o.get('excluded')}))
         # ---- float64 evaluation for the comparison with the model (value + gradient), Coq literals
+        # ---- re-assigning the cost specification after the masks have moved changes nothing: same value as before
+        # (= as a FRESH wrapper carrying identical mask values), dict <-> single, and all masks open == original
+        stage = 'reassign'
+        setall(lo)
+        p.cost_specification = dict(specs)
+        for w_, sw in singles.items():
+            sw.cost_specification = specs[w_]
+        setall(vals0)
+        fresh = PIT(ga.build(spec, seed=seed), input_shape=tuple(spec['input_shape']), cost=dict(specs), **kw)
+        fnas = dict(fresh.named_nas_parameters())
+        for n, q in train:
+            _set(torch, fnas[n], vals0[n])
+        for which in names:
+            c2, cf = float(p.get_cost(which)), float(fresh.get_cost(which))
+            if c2 != cf or c2 != o['specs'][which]['value']:
+                o['fails'].append(('cost-changes-after-reassigning-cost-specification:' + which, {'before': o['specs'][which]['value'], 'after_reassignment': c2, 'fresh_wrapper_same_masks': cf, 'excluded': o.get('excluded')}))
+            if which in singles and float(singles[which].cost) != cf:
+                o['fails'].append(('cost-changes-after-reassigning-cost-specification:' + which, {'single_after_reassignment': float(singles[which].cost), 'fresh_wrapper_same_masks': cf}))
+        sw_ = names[(seed // 3) % len(names)]
+        p.cost_specification = specs[sw_]                   # dict -> single
+        c2 = float(p.cost)
+        if c2 != o['specs'][sw_]['value']:
+            o['fails'].append(('cost-changes-after-reassigning-cost-specification:' + sw_, {'before': o['specs'][sw_]['value'], 'as_single_specification': c2}))
+        setall(hi)
+        p.cost_specification = dict(specs)                  # single -> dict, assigned while the masks are elsewhere
+        setall(op)
+        for which in names:
+            c2 = float(p.get_cost(which))
+            if not close(c2, Fraction(o['specs'][which]['orig'])):
+                o['fails'].append(('open-masks-cost-differs-from-original:' + which, {'open_after_reassigning_cost_specification': c2, 'original': o['specs'][which]['orig'], 'excluded': o.get('excluded')}))
         # ---- the value of a metric does not depend on which metrics were read before it
         stage = 'order'
         setall(vals0)
